@@ -150,6 +150,37 @@ fn gen_setup(rng: &mut Rng, cl: Class, n: u32, sparse_alive: bool, dense_only: b
     for i in 0..nn {
         if alive[i] { s.ents.push((i as u32, if g2[i] { if g3[i] { 3 } else { 2 } } else { 1 })); }
     }
+    // raised entities (half of the worlds): created atomically and not yet merged when the joins run.
+    // 1..30% of the alive entities, both sides of the layer boundaries, generation > 1 (index reused) and,
+    // when no index is dead, a top suffix of never-used indices (generation 1).
+    if nn > 0 && rng.chance(1, 2) {
+        let pct = rng.range(1, 30);
+        let mut sel = vec![false; nn];
+        fill_prob(rng, &mut sel, pct, 100, scale);
+        for &b in &[64usize, 128, 4096, 8192, 262144] {
+            if b >= nn { continue; }
+            match rng.below(4) {
+                0 => { sel[b - 1] = true; sel[b] = true; }
+                1 => { let lo = b - (rng.range(1, 5) as usize).min(b); let hi = (b + rng.below(5) as usize).min(nn - 1); for i in lo..=hi { sel[i] = true; } }
+                2 => { if rng.chance(1, 2) { sel[b - 1] = true; sel[b] = false; } else { sel[b - 1] = false; sel[b] = true; } }
+                _ => {}
+            }
+        }
+        let all_alive = alive.iter().all(|&a| a);
+        let top_len = if all_alive && rng.chance(1, 2) { rng.range(1, (nn as u64).min(if nn > 5000 { 3000 } else { 40 })) as usize } else { 0 };
+        let bump = if rng.chance(1, 4) { 3 } else { 2 };
+        for e in s.ents.iter_mut() {
+            let i = e.0 as usize;
+            if i >= nn - top_len { e.1 = 1; s.raised.push((e.0, 1)); }
+            else if sel[i] { if e.1 == 1 { e.1 = bump; } s.raised.push(*e); }
+        }
+        if s.raised.is_empty() {
+            let j = rng.below(s.ents.len() as u64) as usize;
+            if s.ents[j].1 == 1 { s.ents[j].1 = 2; }
+            let e = s.ents[j];
+            s.raised.push(e);
+        }
+    }
     // stores
     let mut prev: Vec<Vec<bool>> = Vec::new();
     for k in 0..16 {
@@ -236,6 +267,8 @@ fn gen_op(rng: &mut Rng, cl: Class, n: u32, s: &Setup, gens: &[i32], h3: bool) -
         let destructive = sh.members.split(' ').any(|m| m.starts_with('d') || m.starts_with('c'));
         let mut w = if destructive { 1 } else if sh.unconstrained() { 2 } else { 4 };
         if cl == Class::Raw && sh.has_bits() { w *= 6; }
+        // worlds with raised entities: favour the shapes that join over `&entities`
+        if !s.raised.is_empty() && sh.members.split(' ').any(|m| m.trim_start_matches('?') == "e") { w *= 3; }
         w
     }).collect();
     let sh = &SHAPES[rng.weighted(&ws)];
@@ -363,8 +396,11 @@ fn trees_main(seed: u64, cases: usize, out: &mut String) {
         caps(out);
         flush(out);
         let mut chosen: Vec<&Shape> = Vec::new();
+        let has_e = |sh: &Shape| sh.members.split(' ').any(|m| m.trim_start_matches('?') == "e");
         while chosen.len() < 3 {
             let sh = par_shapes[rng.below(par_shapes.len() as u64) as usize];
+            // worlds with raised entities: the first two shapes join over `&entities`
+            if !setup.raised.is_empty() && chosen.len() < 2 && !has_e(sh) { continue; }
             if !chosen.iter().any(|c| c.sid == sh.sid) { chosen.push(sh); }
         }
         for sh in chosen {
